@@ -14,7 +14,11 @@ EX = {"k7": "7", "inc-a": "(+ a 10)"}
 
 
 def E(site, expr, stmt):
+    """the subform of one site; stmt 1: preceded by a statement; stmt 2: the effect itself happens inside a
+    statement (an assignment to a scratch variable), so that the order of hoisted statements matters"""
     s = f"(e {site} {expr})"
+    if stmt == 2:
+        return f"(do (setv hyv-s{site} {s}) hyv-s{site})"
     return f"(do (assert True) {s})" if stmt else s
 
 
@@ -22,8 +26,13 @@ def render_form(head, rec, stmtpos):
     cl, fin = rec["cl"], rec["fin"]
     n = len(cl)
     parts = []
+    both = stmtpos == "both"
+    deep = isinstance(stmtpos, int) and stmtpos < 0
+    if deep:
+        stmtpos = -stmtpos
+    flavour = 2 if deep else 1
     for i, c in enumerate(cl, 1):
-        st = stmtpos == i
+        st = flavour if stmtpos == i else 0
         if c[0] == "for":
             parts.append(f"{c[1]} {E(i, IT[c[2]], st)}")
         elif c[0] == "if":
@@ -32,12 +41,16 @@ def render_form(head, rec, stmtpos):
             parts.append(f":setv {c[1]} {E(i, EX[c[2]], st)}")
         else:
             parts.append(f":do {E(i, '0', st)}")
-    st = stmtpos == n + 1
+    st = flavour if stmtpos == n + 1 else 0
     k, v = fin
     if head == "for":
         body = E(90, "a", st) if k == "val" else f"{E(90, '0', st)} (when {CO[v]} (break))"
         return f"(for [{'  '.join(parts)}] {body} (else (e 95 0)))"
     if head == "dfor":
+        if both:
+            final = {"val": f"{E(90, v, 2)} {E(91, '(+ ' + v + ' 10)', 2)}", "tup": f"{E(90, 'a', 2)} {E(91, 'b', 2)}",
+                     "star": f"#** {E(90, '{a 5  50 a}', 2)}", "setx": f"(setx z {E(90, 'a', 2)}) {E(91, '0', 2)}"}[k]
+            return f"({head} {'  '.join(parts)}  {final})"
         final = {"val": f"{E(90, v, st)} (e 91 (+ {v} 10))", "tup": f"{E(90, 'a', st)} (e 91 b)",
                  "star": f"#** {E(90, '{a 5  50 a}', st)}", "setx": f"(setx z {E(90, 'a', st)}) (e 91 0)"}[k]
     else:
@@ -200,12 +213,18 @@ def main(run):
                     continue      # Python: a comprehension in a class body cannot see the class's variables
                 for sp in range(0, len(rec["cl"]) + 2):
                     variants.append((head, scope, sp))
+                    if sp:
+                        variants.append((head, scope, -sp))
+                if head == "dfor":
+                    variants.append((head, scope, "both"))
         if not is_short or q:
             # quick: a few variants per program; the short programs still get every head and scope
             keep = [v for v in variants if v[2] == 0]
-            extra = [v for v in variants if v[2] != 0]
+            extra = [v for v in variants if v[2] != 0 and v[2] != "both"]
+            bothv = [v for v in variants if v[2] == "both"]
             rng.shuffle(extra)
-            variants = (keep if is_short else rng.sample(keep, min(len(keep), 2))) + extra[:3 if is_short else 2]
+            rng.shuffle(bothv)
+            variants = (keep if is_short else rng.sample(keep, min(len(keep), 2))) + extra[:3 if is_short else 2] + bothv[:1]
         for head, scope, sp in variants:
             jobs.append((head, scope, sp, rec))
     for (head, scope, sp, rec), (got, st) in zip(jobs, pmap(_one, jobs)):
